@@ -28,16 +28,16 @@ def c18_seq(start, owner, ops):
             'b0x': BraceGroup(h[0])}
     strs = {'sb': '{' + h[1] + '}', 'sk': '[' + h[0] + ']', 'bad1': '{' + h[0], 'bad2': h[1] + ']', 'bad3': h[2],
             'blank': ' ', 'sbb': '{{' + h[1] + '}}', 'skk': '[[' + h[0] + ']]', 'sbn': '{' + h[2] + '{y}}', 'sknb': '[{' + h[1] + '}]'}
-    init = [pool[k] for k in start]
+    init = [pool[k] if k in pool else strs[k] for k in start]      # (whitespace strings only enter the proxy list)
     if owner:
-        soup = TexSoup('\\a' + ''.join([gtext(g) for g in init]) + ' tail')
+        soup = TexSoup('\\a' + ''.join([gtext(g) for g in init if not isinstance(g, str)]) + ' tail')
         node = soup.a
         args = node.args
         m = list(args)
     else:
         node = None
         args = TexArgs(init)
-        m = list(init)
+        m = [x for x in init if not isinstance(x, str)]
     step = 0
     for op in ops:
         step += 1
